@@ -127,7 +127,8 @@ MInit == [pc |-> "out", act |-> "RUN", inAvail |-> 0, given |-> 0, outSpace |-> 
           memStop |-> MemStop,               \* coder->memlimit_stop
           memT |-> Min(MemT, MemStop),       \* coder->memlimit_threading (never above memlimit_stop)
           raises |-> 0,
-          tells |-> 0]                       \* ghost: LZMA_*_CHECK notifications returned so far
+          tells |-> 0,
+          progIn |-> 0, progOut |-> 0]       \* ghost: the last values lzma_get_progress() reported (trace validation)                       \* ghost: LZMA_*_CHECK notifications returned so far
 CInit == [free |-> <<>>, threadErr |-> "OK", outq |-> <<>>, readPos |-> 0, memInUse |-> 0, sigM |-> FALSE]
 TInit == [state |-> "IDLE", inFilled |-> 0, partial |-> "DIS", sig |-> FALSE, pc |-> "none", blk |-> 0,
           inPos |-> 0, outPos |-> 0, snapIn |-> 0, snapPartial |-> "DIS", ret |-> "OK", inBuf |-> "none"]
